@@ -143,6 +143,10 @@ def twins(tier, seed):
             pos = uint_field("x", [(0, 3)], array=arr(2, 4))
             neg = dict(pos, array=arr(2, 3))
             add(_case("x", N, [pos]), _case("x", N, [neg]), "stride<width", "stride one below the element width, %s" % bc, "array")
+            pos = bool_field("x", 0, array=arr(4, 1))
+            add(_case("x", N, [pos]), _case("x", N, [dict(pos, array=arr(4, 0))]), "stride<width", "bool array with stride 0, %s" % bc, "array")
+            pos = uint_field("x", [(0, 1)], array=arr(3, 2))
+            add(_case("x", N, [pos]), _case("x", N, [dict(pos, array=arr(3, 0))]), "stride<width", "u2 array with stride 0, %s" % bc, "array")
             pos = bool_field("x", 0, array=arr(2, 1))
             pos2 = uint_field("x", [(0, 0), (2, 2)], array=arr(2, 4))
             neg = dict(pos2, array=dict(pos2["array"], explicit=False))
